@@ -230,6 +230,15 @@ func c20BuildWorld(r *mon.Run) (w *world.World, big entity.Id, small entity.Id, 
 			return fail(err)
 		}
 	}
+	// the same person set up an identity on several machines: identities with exactly the same name, email and login
+	for i := 0; i < 3; i++ {
+		if _, err := r0.NewAuthor("Same Person"); err != nil {
+			return fail(err)
+		}
+		if _, err := r1.NewAuthor("Same Person"); err != nil {
+			return fail(err)
+		}
+	}
 	rng := mon.Rng(r.Seed, "c20-e2e", 0)
 	// Pairs of bugs created concurrently on the two replicas: the k-th bug of either replica carries
 	// create-Lamport time k, and the first pairs also share the unix timestamp (two users filing a
